@@ -17,16 +17,23 @@ use crate::{
 };
 
 pub struct ShareOp<'a, Item, Err, Source>(
-  MutRc<InnerShareOp<Source, Subject<'a, Item, Err>>>,
+  MutRc<InnerShareOp<Source, Subject<'a, Item, Err>, BoxSubscription<'a>>>,
 );
 
 pub struct ShareOpThreads<Item, Err, Source>(
-  MutArc<InnerShareOp<Source, SubjectThreads<Item, Err>>>,
+  MutArc<
+    InnerShareOp<Source, SubjectThreads<Item, Err>, BoxSubscriptionThreads>,
+  >,
 );
 
-enum InnerShareOp<Source, Subject> {
+pub enum InnerShareOp<Source, Subject, Connection> {
   Connectable(ConnectableObservable<Source, Subject>),
-  Connected(Subject),
+  Connected {
+    subject: Subject,
+    // the subscription to the source, released by the last leaver
+    connection: Option<Connection>,
+    ref_count: usize,
+  },
 }
 
 macro_rules! impl_trivial {
@@ -51,9 +58,9 @@ impl_trivial!(ShareOp, MutRc, 'a);
 impl_trivial!(ShareOpThreads, MutArc);
 
 macro_rules! impl_observable_methods {
-  ($subject: ty) => {
+  ($subject: ty, $rc: ident, $box_unsub: ident, $box_ty: ty) => {
     type Unsub = RefCountSubscription<
-      $subject,
+      $rc<InnerShareOp<S, $subject, $box_ty>>,
       <$subject as Observable<Item, Err, O>>::Unsub,
     >;
 
@@ -64,19 +71,29 @@ macro_rules! impl_observable_methods {
           let subject = c.fork();
 
           let subscription = subject.clone().actual_subscribe(observer);
-          let connected = InnerShareOp::Connected(subject.clone());
+          let connected = InnerShareOp::Connected {
+            subject,
+            connection: None,
+            ref_count: 1,
+          };
           let connectable = std::mem::replace(&mut *inner, connected);
 
-          match connectable {
+          let unsub = match connectable {
             InnerShareOp::Connectable(connectable) => connectable.connect(),
             InnerShareOp::Connected { .. } => unreachable!(),
           };
+          if let InnerShareOp::Connected { connection, .. } = &mut *inner {
+            *connection = Some($box_unsub::new(unsub));
+          }
+          drop(inner);
 
-          RefCountSubscription { subject, subscription }
+          RefCountSubscription { share: self.0, subscription }
         }
-        InnerShareOp::Connected(subject) => {
+        InnerShareOp::Connected { subject, ref_count, .. } => {
           let subscription = subject.clone().actual_subscribe(observer);
-          RefCountSubscription { subject: subject.clone(), subscription }
+          *ref_count += 1;
+          drop(inner);
+          RefCountSubscription { share: self.0, subscription }
         }
       }
     }
@@ -89,8 +106,14 @@ where
   Err: Clone,
   O: Observer<Item, Err> + 'a,
   S: Observable<Item, Err, Subject<'a, Item, Err>>,
+  S::Unsub: 'a,
 {
-  impl_observable_methods!(Subject<'a, Item, Err>);
+  impl_observable_methods!(
+    Subject<'a, Item, Err>,
+    MutRc,
+    BoxSubscription,
+    BoxSubscription<'a>
+  );
 }
 
 impl<'a, S, Item, Err> ObservableExt<Item, Err> for ShareOp<'a, Item, Err, S> where
@@ -104,28 +127,49 @@ where
   Err: Clone,
   O: Observer<Item, Err> + Send + 'static,
   S: Observable<Item, Err, SubjectThreads<Item, Err>>,
+  S::Unsub: Send + 'static,
 {
-  impl_observable_methods!(SubjectThreads< Item, Err>);
+  impl_observable_methods!(
+    SubjectThreads<Item, Err>,
+    MutArc,
+    BoxSubscriptionThreads,
+    BoxSubscriptionThreads
+  );
 }
 
 impl<S, Item, Err> ObservableExt<Item, Err> for ShareOpThreads<Item, Err, S> where
   S: ObservableExt<Item, Err>
 {
 }
-pub struct RefCountSubscription<Subject, U> {
-  subject: Subject,
+pub struct RefCountSubscription<Share, U> {
+  share: Share,
   subscription: U,
 }
 
-impl<U, Subject> Subscription for RefCountSubscription<Subject, U>
+impl<U, Share, Source, Subject, Connection> Subscription
+  for RefCountSubscription<Share, U>
 where
-  Subject: Subscription + SubjectSize,
+  Share: RcDerefMut<Target = InnerShareOp<Source, Subject, Connection>>,
+  Subject: Subscription + Clone,
+  Connection: Subscription,
   U: Subscription,
 {
   fn unsubscribe(self) {
     self.subscription.unsubscribe();
-    if self.subject.is_empty() {
-      self.subject.unsubscribe()
+    let mut inner = self.share.rc_deref_mut();
+    if let InnerShareOp::Connected { subject, connection, ref_count } =
+      &mut *inner
+    {
+      *ref_count -= 1;
+      if *ref_count == 0 {
+        let subject = subject.clone();
+        let connection = connection.take();
+        drop(inner);
+        if let Some(connection) = connection {
+          connection.unsubscribe();
+        }
+        subject.unsubscribe();
+      }
     }
   }
 
